@@ -6,11 +6,11 @@ BUDGET = {
     "quick": dict(shards=16, cases=12800, deadline=70),
     "thorough": dict(shards=16, cases=80000, deadline=1200),
 }
-DECIDING = ["pattern.group", "combo.combinations", "filter.combo.create", "filter.chord.create", "filter.type.create"]
+DECIDING = ["pattern.from_lists", "pattern.group", "combo.combinations", "filter.combo.create", "filter.chord.create", "filter.type.create"]
 RULE = ("Note sets of 0..40 notes (ties, repeated columns, holds with tails, via Pattern(...) and Pattern.from_note_lists on generated "
-        "charts), windows v in {0,1,10,50,1000}, h in {None,0,1,2,keys}, both jack settings; combination sizes 2..4, make_size2 on/off, "
+        "charts after histories that leave non-default row labels; from_note_lists must hold exactly the rows of the lists plus the requested tails), windows v in {0,1,10,50,1000}, h in {None,0,1,2,keys}, both jack settings; combination sizes 2..4, make_size2 on/off, "
         "every single option and pairs of options of the chord / column / type filters, include and exclude, single- and multi-row "
-        "bases, plus template_jacks and template_chord_stream. group() is checked for partition + window + jack invariants; "
+        "bases, plus template_jacks and template_chord_stream; the same Pattern / PtnCombo is asked again with one argument changed at a time. group() is checked for partition + window + jack invariants; "
         "create() against reference option expansions; combinations() against a brute-force itertools.product with reference filter semantics.")
 TOLERANCES = {}
 ASSUMPTIONS = ["option expansions: REPEAT = all in-range translations, H/V mirror, ANY_ORDER = permutations, AND_LOWER/AND_HIGHER = "
@@ -84,8 +84,12 @@ def run(ctx, case):
 
             with ctx.quiet():
                 spec = charts.gen_spec(random.Random(case["chart_seed"]), random.Random(case["chart_seed"]).choice(["osu", "qua", "bms", "o2j"]))
-                m = charts.build(spec)
+                r_ = random.Random(case["chart_seed"] + 1)
+                # lists with non-default row labels / order (filtered, reversed, shuffled, rate-changed, split and re-appended)
+                hist = charts.gen_history(r_, allowed=["filter_mask", "sorted", "shuffle", "reverse", "append_split", "rate", "stack_noop"]) if r_.random() < 0.6 else []
+                m = charts.apply_history(charts.build(spec), hist)
                 m = m.maps[0] if hasattr(m, "maps") else m
+                ctx.state("c20.from_lists_history", tuple(h[0] for h in hist))
                 keys = max(spec["charts"][0]["keys"], 1)
             p = Pattern.from_note_lists([m.hits, m.holds], include_tails=case["jack"])
         else:
